@@ -72,7 +72,7 @@ def plan(tier, seed):
 META = {
     'level': 'model_checking',
     'engines': 'E1: cbmc 6.11 bit-precise; USER_MALLOC/USER_FREE (the library\'s own override points) routed to counting wrappers',
-    'bounds': {'driver returns without factorization': 'real pdgssvx with everything real down to the start of the workers, counting USER_MALLOC/USER_FREE: lwork=-1 query; caller workspace 1..80n^2 bytes at any alignment; system allocator refusing every MemInit request from the k-th on (k symbolic); n=2,3, 8 patterns, NC/NR, symmetric mode on/off, 1-2 threads, w/relax 1..2', 'worker loop': 'as C06: work storage requested once and given back once on every return without memory error, any hand-out order, any singular columns', 'routines': 'get_perm_c (options 0..2), sp_colorder (+sp_coletree/sp_symetree/TreePostorder/qrnzcnt/cholnzcnt), and the illegal-argument returns of both drivers and six computational routines',
+    'bounds': {'driver returns without factorization': 'real pdgssvx with everything real down to the start of the workers, counting USER_MALLOC/USER_FREE: lwork=-1 query; caller workspace 1..80n^2 bytes at any alignment; system allocator refusing every MemInit request from the k-th on (k symbolic); n=2,3, 8 patterns, NC/NR, symmetric mode on/off, 1-2 threads, w/relax 1..2', 'worker loop': 'as C06: work storage requested once and given back once on every return without memory error, any hand-out order, any singular columns; second query with counting USER_MALLOC/USER_FREE in pdgstrf_thread.c and a WorkInit that is refused or granted (symbolic): heap balance of the worker zero on the refused-storage return and on every return without memory error', 'routines': 'get_perm_c (options 0..2), sp_colorder (+sp_coletree/sp_symetree/TreePostorder/qrnzcnt/cholnzcnt), and the illegal-argument returns of both drivers and six computational routines',
                'inputs': 'm,n<=2 all patterns, 3x3 sampled (thorough: all); symbolic input permutation for sp_colorder; whole symbolic argument records'},
     'outside': ['thread and file handles (OS facts)', 'the drivers\' successful / singular returns and allocation failures after the workers have started (the numeric factorization is not bit-precisely encodable; E2 queries use typed allocator stubs)', 'refusal of requests whose failure the library answers with abort (intMalloc) or does not check (expander table, ParallelInit)', 'COLAMD'],
     'assumptions': ['balance zero per call implies no growth over any call sequence'],
